@@ -144,11 +144,6 @@ def judge(ctx, c: Case, c_rev: Case):
     # the verified checker on the implementation's output (theorem instance)
     if a.get("eventlocal"):
         ctx.count("EventLocal:accepted")
-    elif "First" in cgroup.qgen.ops_used(c.query):
-        # the First idiom (value assigned under `if (is_first)`, guarded by throw-after-loop) needs a
-        # path-sensitive analysis the verified checker does not have: no theorem instance for this
-        # program; it is judged by the executed model only
-        ctx.count("EventLocal:not-covered(First idiom)")
     else:
         ctx.count("EventLocal:rejected")
         ctx.disagreement("EventLocal(checker on implementation output)", {"backend": c.backend, "source": c.source(), "body": c.result["query"]}, "accepted", "rejected")
